@@ -25,6 +25,8 @@ SCRIPTS = {
     "place2-cancel2": [(0, ["PP", [A, B]]), (0, ["CC", [[0], [1]]])],
     "place-cancel-cancel": [(0, ["P", A]), (0, ["C", 0, 2.0]), (0, ["C", 0, None])],
     "two-strategies": [(0, ["P", A]), (1, ["P", B]), (0, ["C", 0, None])],
+    "place-sp": [(0, ["P", dict(sel=1, side="LAY", ot="LOC", liab=10.0, price=3.0)]), (0, ["P", dict(sel=2, side="BACK", ot="MOC", liab=4.0)])],
+    "place-handicap": [(0, ["P", dict(A, hc=-1.5)]), (0, ["C", 0, 2.0])],
 }
 
 
@@ -190,7 +192,7 @@ def oracle(w, obs, meta, out, counts):
             counts["clause:C11.d"] += 1
             cur = post.get(key)
             # expected from the exchange table: bets of this strategy/runner present in the image
-            bets_now = sorted(b.bet_id for b in known_bets if b.market_id == key[1] and b.sel == key[2] and hashes.get(b.ref[:STRATEGY_NAME_HASH_LENGTH]) is not None and hashes[b.ref[:STRATEGY_NAME_HASH_LENGTH]].name == stname and (meta["image"] == "all" or b.status == "E"))
+            bets_now = sorted(b.bet_id for b in known_bets if b.market_id == key[1] and b.sel == key[2] and (b.hc or 0) == (key[3] or 0) and hashes.get(b.ref[:STRATEGY_NAME_HASH_LENGTH]) is not None and hashes[b.ref[:STRATEGY_NAME_HASH_LENGTH]].name == stname and (meta["image"] == "all" or b.status == "E"))
             if not bets_now:
                 continue
             if cur is None:
@@ -202,7 +204,11 @@ def oracle(w, obs, meta, out, counts):
             # exposure: brute-force reference over the exchange's bets of this strategy/runner ...
             from mc import refs as R
 
-            ros = [R.RefOrder(b.side, "LIMIT", False, "EXECUTABLE" if b.status == "E" else "EXECUTION_COMPLETE", b.status == "EC", [(b.avp, b.sm)] if b.sm else [], b.sr, b.price, None) for b in known_bets if b.bet_id in bets_now]
+            ros = [
+                R.RefOrder(b.side, {"L": "LIMIT", "LOC": "LOC", "MOC": "MOC"}[b.ot], False, "EXECUTABLE" if b.status == "E" else "EXECUTION_COMPLETE", b.status == "EC", [(b.avp, b.sm)] if b.sm else [], b.sr, b.price, b.liab)
+                for b in known_bets
+                if b.bet_id in bets_now
+            ]
             ew, el = R.ref_selection(ros)
             if abs(cur["win"] - float(ew)) > 0.03 or abs(cur["lose"] - float(el)) > 0.03:
                 v("C11.d", "exposure", "%s: exposure after restart %s/%s, exchange bets give %s/%s" % (key, cur["win"], cur["lose"], float(ew), float(el)))
@@ -299,7 +305,7 @@ def jobs_for(tier):
             for f in ("TIMEOUT", "TIMEOUT_APPLIED", "FAILURE:ERROR_IN_ORDER"):
                 jobs.append((name, b1 if not thorough else b2, {k: {"per": [f]}}, False, None, ()))
     # crash / restart at every point (two image variants), one with a strategy that is not re-added
-    for name in ("place", "place-cancel", "place-cancelpart", "place-replace", "two-strategies") + (("place-update", "place2-cancel2") if thorough else ()):
+    for name in ("place", "place-cancel", "place-cancelpart", "place-replace", "two-strategies", "place-sp", "place-handicap") + (("place-update", "place2-cancel2") if thorough else ()):
         jobs.append((name, b1, None, False, "executable", ()))
         jobs.append((name, b1, None, False, "executable", ("S1",) if name == "two-strategies" else ("S0",)))
     return jobs
